@@ -303,6 +303,81 @@ def h_concrete_pruned(ctx):
     ctx.claim('quantised_values_are_entries_of_the_original', okq)
 
 
+def h_concrete_full_beam_large(ctx):
+    """k >= number of elements on tensors with more elements than any default
+    candidate count (real code, fixed integer-valued inputs, sizes beyond the
+    symbolic bound): the reported minimum, maximum and maximum modulus are the
+    true ones also when the opposite optimum is isolated in a slice of small
+    norm (bulk value, two fibres of a large value, one entry of the other
+    sign where they cross)."""
+    def rank1(vs):
+        return [np.asarray(v, dtype=float).reshape(1, -1, 1) for v in vs]
+
+    def build(n, s, lo, hi, bulk):
+        o = np.ones(n)
+        e = [np.eye(n)[s[k]] for k in range(3)]
+        Y = rank1([bulk * o, o, o])
+        Y = teneva.add(Y, rank1([(hi - bulk) * e[0], e[1], o]))
+        Y = teneva.add(Y, rank1([(hi - bulk) * o, e[1], e[2]]))
+        return teneva.add(Y, rank1([(lo - 2 * hi + bulk) * e[0], e[1], e[2]]))
+    ok = True
+    cases = [(build(12, (3, 7, 5), -3., 10., -1.), 12 ** 3), (build(12, (8, 2, 11), 3., -10., 1.), 12 ** 3),
+             (build(12, (0, 0, 0), -3., 10., -1.), 2 * 12 ** 3), (build(6, (1, 4, 2), -3., 10., -1.), 6 ** 3)]
+    rng = np.random.default_rng(3)
+    for shape in ((6, 5, 4), (11, 10), (3, 4, 3, 4)):
+        F = rng.integers(-9, 10, size=shape).astype(float)
+        F[tuple(0 for _ in shape)] = 12.
+        F[tuple(k - 1 for k in shape)] = -11.
+        cases.append((teneva.svd(F, 1e-14), int(np.prod(shape))))
+    for Y, k in cases:
+        F = teneva.full(Y)
+        i1, y1, i2, y2 = teneva.optima_tt(Y, k)
+        ok = ok and abs(y1 - F.min()) <= 1e-8 and abs(y2 - F.max()) <= 1e-8
+        ok = ok and abs(F[tuple(int(a) for a in i1)] - y1) <= 1e-8 and abs(F[tuple(int(a) for a in i2)] - y2) <= 1e-8
+        im, ym = teneva.optima_tt_max(Y, k)
+        ok = ok and abs(abs(ym) - np.abs(F).max()) <= 1e-8
+    ctx.claim('full_beam_optima_are_true_beyond_default_candidate_count', bool(ok))
+
+
+RANK1_CASES = {
+    'a': ([-4, -2, 5], [-1, -2], [-5, 6, 2]),
+    'b': ([1, -3, 2], [2, 5, -4], [3, -1, 6]),
+    'c': ([2, -1], [3, 4, -5], [1, -2]),
+    'd': ([1, 2, 3, 4, 5, 6], [6, 5, 4, 3, 2, 1], [1, -2, 3, -4, 5, -6]),
+    'e': ([-1, -2, -3], [-4, -5]),
+    'f': ([0, 3, -2], [5, 0, 1], [2, 2, -7]),
+    'g': ([1, 1, 1], [2, 2], [3, -3, 1]),
+    'h': ([7, -2, 3, 1], [1, -6, 2, 2]),
+    'i': ([2, 3], [2, 3], [2, 3], [-1, 4]),
+}
+
+
+def h_concrete_rank1_any_k(ctx):
+    """"For every rank-1 tensor with any candidate count the reported
+    maximum-modulus, minimum and maximum values are the true ones": fixed
+    integer rank-1 tensors (mixed signs, zeros, ties, d = 2 .. 4, mode sizes up
+    to 6), every k from 1 to the number of elements that prunes at some step
+    plus k = all, both sweep directions (real code; the symbolic rank-1
+    instances stop at 2 x 2 x 2 because pruning decisions fork on every pair of
+    candidates).  One claim per tensor and candidate count."""
+    for tag, vs in RANK1_CASES.items():
+        Y = [np.array(v, dtype=float).reshape(1, -1, 1) for v in vs]
+        F = teneva.full(Y)
+        top = np.abs(F).max()
+        for k in (1, 2, 3, 5, F.size):
+            ok = True
+            for l2r in (True, False):
+                i = teneva.optima_tt_beam(Y, k, l2r=l2r)
+                ok = ok and abs(abs(F[tuple(int(a) for a in i)]) - top) <= 1e-9
+                I = teneva.optima_tt_beam(Y, k, l2r=l2r, ret_all=True)
+                ok = ok and [int(a) for a in I[0]] == [int(a) for a in i] and I.shape[0] == min(k, F.size)
+            im, ym = teneva.optima_tt_max(Y, k)
+            ok = ok and abs(abs(ym) - top) <= 1e-9 and abs(F[tuple(int(a) for a in im)] - ym) <= 1e-9
+            ctx.claim(f'rank1_maximum_modulus_true:{tag}:k={k}', bool(ok))
+            i1, y1, i2, y2 = teneva.optima_tt(Y, k)
+            ctx.claim(f'rank1_min_max_true:{tag}:k={k}', bool(abs(y1 - F.min()) <= 1e-9 and abs(y2 - F.max()) <= 1e-9))
+
+
 def instances(tier):
     out = []
     quick = tier == 'quick'
@@ -311,6 +386,8 @@ def instances(tier):
                         [([2, 2], 1, 1, False), ([2, 2], 2, 4, True), ([2, 2], 2, 4, False), ([2, 2], 2, 1, False),
                          ([2, 3], 2, 6, False), ([2, 2, 2], 1, 1, False), ([2, 2, 2], 1, 2, False)]):
         out.append({'func': 'h_beam', 'params': {'n': n, 'r': r, 'k': k, 'fixed_q': fq}, 'opts': G})
+    out.append({'func': 'h_concrete_rank1_any_k', 'params': {}, 'opts': {'concrete_only': True}})
+    out.append({'func': 'h_concrete_full_beam_large', 'params': {}, 'opts': {'concrete_only': True}})
     out.append({'func': 'h_concrete_pruned', 'params': {}, 'opts': {'concrete_only': True}})
     out.append({'func': 'h_concrete_func_scales', 'params': {}, 'opts': {'concrete_only': True}})
     out.append({'func': 'h_concrete_sign_ties', 'params': {}, 'opts': {'concrete_only': True}})
